@@ -3,7 +3,9 @@ module verif/harness
 go 1.17
 
 require (
+	github.com/google/martian v2.1.0+incompatible
 	github.com/kubeshark/base v0.0.0
+	github.com/rs/zerolog v1.28.0
 	golang.org/x/net v0.2.0
 )
 
@@ -12,7 +14,6 @@ require (
 	github.com/clbanning/mxj/v2 v2.5.5 // indirect
 	github.com/dlclark/regexp2 v1.4.0 // indirect
 	github.com/fatih/camelcase v1.0.0 // indirect
-	github.com/google/martian v2.1.0+incompatible // indirect
 	github.com/klauspost/compress v1.15.9 // indirect
 	github.com/kubeshark/gopacket v1.1.20 // indirect
 	github.com/mattn/go-colorable v0.1.13 // indirect
@@ -20,7 +21,6 @@ require (
 	github.com/mertyildiran/gqlparser/v2 v2.4.6 // indirect
 	github.com/ohler55/ojg v1.14.5 // indirect
 	github.com/pierrec/lz4/v4 v4.1.15 // indirect
-	github.com/rs/zerolog v1.28.0 // indirect
 	github.com/segmentio/kafka-go v0.4.38 // indirect
 	golang.org/x/sys v0.2.0 // indirect
 	golang.org/x/text v0.4.0 // indirect
